@@ -31,6 +31,7 @@ def gen(rng, tier, no, wide=False):
         hi = max(e["ts"] + e["dur"] for e in xs) + 10
         host = next(e for e in xs if e.get("cat") == "cpu_op")
         ev[1:1] = [{"ph": "X", "cat": "cpu_op", "name": "aten::fill_", "pid": host["pid"], "tid": host["tid"], "ts": hi + 3 * k, "dur": 2} for k in range(1100)]
+        case["params"]["annotation"], case["params"]["instance"] = "", None      # the whole trace is analysed
         # ... and the device work sits on streams whose ids do not fit a signed byte
         for e in ev:
             a = e.get("args")
